@@ -228,7 +228,6 @@ var forbiddenPkgs = map[string]string{
 	"crypto/rand":   "randomness is modelled by vrand",
 	"encoding/json": "json runs natively on mirror types",
 	"regexp":        "regexp runs natively",
-	"fmt":           "fmt runs natively",
 	"github.com/spf13/cobra": "CLI framework outside the claim",
 	"github.com/spf13/pflag": "CLI framework outside the claim",
 }
@@ -479,7 +478,16 @@ func classify(o *harnessOutcome, ld *loaded, known []KnownFinding, scratch strin
 	r := o.res
 	if len(r.Inconclusive) > 0 {
 		o.status = "inconclusive"
-		o.why = append(o.why, r.Inconclusive...)
+		for k, w := range r.Inconclusive {
+			if k >= 6 {
+				o.why = append(o.why, fmt.Sprintf("... and %d more reasons", len(r.Inconclusive)-k))
+				break
+			}
+			if len(w) > 400 {
+				w = w[:400] + "..."
+			}
+			o.why = append(o.why, w)
+		}
 	}
 	// vacuity: all declared cover points reached
 	for _, c := range o.h.Covers {
